@@ -62,6 +62,11 @@ CHECKS = {
          "Known findings excluded by explicit hypotheses with refuted-lemmas: '-0.000' charge loses its sign on the second write; a 0-conformer ensemble writes nothing. "
          "Two defects repaired (a070a0c, acf63e7). No axioms.",
     ref="7/C07"),
+ "C04": dict(
+    technique="Coq proofs: session contract for ALL fault assignments on the AST-extracted skeleton of reading()/writing() (tie S) validated against the real context managers on every fault vector (tie T); invariant proof over a lock/process transition system reducing every interleaving to the C02 refinement; real multi-process schedules compared with the transition system",
+    text="Props/C04.v. C04_writing/reading_session_contract: for EVERY assignment of raising steps (guard, acquire, begin, update_keys, body/encoder, flush, end) the lock is released last iff it was acquired, the file is closed before the release whenever it was opened, flush runs, no exception is swallowed -- proved on the program extracted from the AST of molli/storage/backends.py each run, whose denotation equals the trace of the REAL context manager on all 2^7+2^5 fault vectors, with the lock observed free from another process and the file closed (C04_skeleton_is_the_code). C04_lock_implies_discipline / C04_serialised / C04_mutex / C04_writer_alone / C04_progress: for any number of processes, handles and sessions and EVERY schedule, the reader/writer lock establishes the session discipline of C02, so the file stays an insert-only map of complete records and every outcome is the abstract map's; writers are alone; the lock is never leaked. Real OS processes: 120 stepped schedules (1200 thorough) compared with the transition system inside Coq, plus free-running workers with injected delays, body/encoder faults and aliased path spellings judged by an event-log oracle.",
+    note="PARTIAL for real schedules: fcntl/fasteners lock semantics are ASSUMED (encoded in the transition system, validated by the multi-process runs, not proved); process death while holding the lock and OS scheduling are not exhibited by the model. Threads sharing a handle / nested sessions in one process are outside the claim. Trusted: Coq kernel+vm_compute; harness/c04_skel.py (AST walker, recording wrappers, lock probe), harness/c04_mp.py (workers, CLOCK_MONOTONIC event log). No axioms.",
+    ref="7/C04"),
 }
 
 PENDING = {
